@@ -568,6 +568,9 @@ def run(ctx):
     hist_runs = 0
     for hi, (what, before, plain, qq) in enumerate(histories):
         oh, op_ = outs[2 * hi], outs[2 * hi + 1]
+        if "timeout" in (oh.get("error"), op_.get("error")):     # an overloaded machine is not a violation: counted, not judged
+            ctx.cov["history_timeouts"] = ctx.cov.get("history_timeouts", 0) + 1
+            continue
         hist_runs += 1
         if not op_.get("ok"):
             ctx.violation("C18|history|plain-fit-fails|%d" % hi, "a plain one-shot fit fails in a fresh interpreter",
